@@ -22,10 +22,28 @@ def ct_variant(octets, ct):
     return o
 
 
-def path_for(label, octets, ct, pads, history=False):
+def without_type(octets):
+    """the same list without its meter-type element (element count adjusted): OBIS-tagged elements are optional one by one"""
+    o = list(octets)
+    pos = CR.split_frame(o)[1]
+    root = CR.walk(o, pos, greedy=True)
+    items = [k for k in root.children if k.kind != "null"]
+    groups = [[items[0]]] + [[a, b] for a, b in zip(items[1::2], items[2::2])]
+    keep = [g for g in groups if not (len(g) == 2 and CR.cde(o[g[0].vstart:g[0].end]) == "96.1.1")]
+    out = list(o[:pos]) + [0x02, sum(len(g) for g in keep)]
+    for g in keep:
+        for k in g:
+            out += list(o[k.start:k.end])
+    return out
+
+
+def path_for(label, octets, ct, pads, history=False, no_type=False):
     def path(eng, ctx):
         o = list(octets)
         before = [ct_variant(octets, not ct), ct_variant(octets, ct), ct_variant(octets, not ct)] if history else ()
+        if no_type:
+            # a list that does not say what meter it comes from is scaled as a direct meter, whatever was decoded before it
+            o, before = without_type(octets), [ct_variant(octets, True)]
         if pads:
             o = D.kamstrup_pad(o, CR.split_frame(o)[1], pads)
         o = D.make_holes(eng, o, "kamstrup", "frame", free_clocks=True, ct=ct)
@@ -52,6 +70,10 @@ def scenarios(tier):
             out.append(Scenario(f"kamstrup {name} ct={ct} after lists of the other meter kind were decoded in the same process", path_for(name, o, ct, None, history=True),
                                 bounds={"layout": name, "history": "a list of the opposite kind (CT / direct), one of the same kind, one of the opposite kind decoded first", "free": "as above"},
                                 domains=("decoders",), engine_opts={"slicing": True}, frontier=3, workers=4, assumptions=A, replay_cap=40))
+    o = D.fixture("kamstrup", "no_list_2_three_phase")
+    out.append(Scenario("kamstrup no_list_2_three_phase without its meter-type element, after a CT (685) list was decoded in the same process", path_for("no_list_2_three_phase", o, False, None, no_type=True),
+                        bounds={"layout": "no_list_2_three_phase minus the meter-type element", "history": "the full list with a 685 type number decoded first", "free": "as above"},
+                        domains=("decoders",), engine_opts={"slicing": True}, frontier=3, workers=4, assumptions=A, replay_cap=40))
     return out
 
 
